@@ -43,7 +43,7 @@ def run(ctx):
                        'a run that stalls twice (no acquisition by the waiting class for 25 s) is "no progress"; one stall is inconclusive',
                        'PARSEC_RWLOCK_IMPL is the ticket implementation configured in parsec_rwlock.h; other branches are not compiled',
                        'prewarm performs real uncontended read cycles to age the ticket counters (no field is poked)']
-    q = 40000 if thorough else 1500
+    q = 10000 if thorough else 1500
     jobs = []
     n = 0
     for flavour in ('rel', 'asan'):
@@ -70,7 +70,7 @@ def run(ctx):
             for y in ((0, 0), (400, 0), (600, 10)):
                 n += 1
                 jobs.append(dict(kind='ep', flavour=flavour, threads=threads, cs=100, y=y, prewarm=0, tag='e%d' % n,
-                                 cmd=[e, '--mode', 'episodes', '--threads', threads, '--cycles', 4, '--episodes', (150000 if thorough else 1500) // (3 if y[1] else 1),
+                                 cmd=[e, '--mode', 'episodes', '--threads', threads, '--cycles', 4, '--episodes', (60000 if thorough else 1500) // (3 if y[1] else 1),
                                       '--seed', ctx.seed * 100 + n, '--yield', y[0], '--yield-us', y[1]]))
         for victim, nv, na, y in (('writer', 1, 6, 0), ('writer', 2, 10, 150), ('reader', 2, 6, 0), ('reader', 4, 8, 150), ('writer', 1, 15, 0)):
             n += 1
